@@ -163,6 +163,9 @@ def constr_coq(cid, r, c):
     goffs = []
     for rr in c["rels"]:
         goffs += expr_offsets(rr["lhs"]) + expr_offsets(rr["rhs"])
+    for e in c.get("vb", {}).get("exprs", []):
+        # components without a finite bound still belong to the vector that is placed as a whole
+        goffs += expr_offsets(e)
     goffs = sorted(set(goffs))
     return "(mkConstr %d%%nat %s %s %s %s %s %s %s)" % (
         cid, "REq" if r["rel"] == "eq" else "RLe", expr_coq(r["lhs"]), expr_coq(r["rhs"]),
@@ -443,23 +446,7 @@ def build_rockit(case, rockit, with_method=True, with_values=True, with_solver=T
             kw["include_last"] = c.get("include_last", True)
         if Fr(c.get("scale", 1)) != 1:
             kw["scale"] = float(Fr(c["scale"]))
-        form = c.get("form", "vec")
-        rels = c["rels"]
-        if form == "between":
-            # rels = [lo <= e, e <= hi]
-            mid = f(rels[0]["rhs"])
-            if mid.is_constant():
-                # lo <= (const <= hi) is evaluated by CasADi as a nested comparison before rockit
-                # sees it: the generated relation carries no information (skipped by compare_case)
-                raise ValueError("You passed a constant middle expression (generated two-sided relation folded by CasADi)")
-            expr = f(rels[0]["lhs"]) <= (mid <= f(rels[1]["rhs"]))
-        elif form == "ge":
-            # rels = [rhs <= lhs] written as lhs' >= rhs'
-            expr = ca.vertcat(*[f(r["rhs"]) for r in rels]) >= ca.vertcat(*[f(r["lhs"]) for r in rels])
-        else:
-            L = ca.vertcat(*[f(r["lhs"]) for r in rels])
-            R = ca.vertcat(*[f(r["rhs"]) for r in rels])
-            expr = (L == R) if rels[0]["rel"] == "eq" else (L <= R)
+        expr = constraint_expr(c, f)
         ocp.subject_to(expr, **kw)
 
     for t in case.get("objective", []):
@@ -472,6 +459,35 @@ def build_rockit(case, rockit, with_method=True, with_values=True, with_solver=T
     if with_solver:
         ocp.solver("ipopt", {"ipopt.print_level": 0, "print_time": False, "ipopt.sb": "yes"})
     return B
+
+
+def constraint_expr(c, f):
+    """the CasADi relation of a declared constraint; f builds the operands (ex / pex of a stage)"""
+    import casadi as ca
+    form = c.get("form", "vec")
+    rels = c["rels"]
+    if form == "between":
+        # rels = [lo <= e, e <= hi]
+        mid = f(rels[0]["rhs"])
+        if mid.is_constant():
+            # lo <= (const <= hi) is evaluated by CasADi as a nested comparison before rockit
+            # sees it: the generated relation carries no information (skipped by compare_case)
+            raise ValueError("You passed a constant middle expression (generated two-sided relation folded by CasADi)")
+        return f(rels[0]["lhs"]) <= (mid <= f(rels[1]["rhs"]))
+    if form == "between_vec":
+        # vector-valued two-sided bound with infinite entries; rels lists the finite sides only
+        vb = c["vb"]
+        inf = float("inf")
+        lo = ca.DM([-inf if v is None else float(Fr(v)) for v in vb["lo"]])
+        hi = ca.DM([inf if v is None else float(Fr(v)) for v in vb["hi"]])
+        mid = ca.vertcat(*[f(e) for e in vb["exprs"]])
+        return lo <= (mid <= hi)
+    if form == "ge":
+        # rels = [rhs <= lhs] written as lhs' >= rhs'
+        return ca.vertcat(*[f(r["rhs"]) for r in rels]) >= ca.vertcat(*[f(r["lhs"]) for r in rels])
+    L = ca.vertcat(*[f(r["lhs"]) for r in rels])
+    R = ca.vertcat(*[f(r["rhs"]) for r in rels])
+    return (L == R) if rels[0]["rel"] == "eq" else (L <= R)
 
 
 def apply_param_values(B, case):
